@@ -1169,3 +1169,85 @@ def life_stage(chk, rig, families, tag, r, thorough=False):
             scs += [s for s in f(r) if s not in scs]
     check_life_family(chk, rig, scs, tag)
     return scs
+
+
+# ---- finding F16: the hand-over race (thorough tier only; probabilistic)
+
+def handover_race_stage(chk, rig, trials=24, fillers=60, par=3):
+    """An attempt with retries left ends between its unit's handling of Stop and nextest stopping itself: the test
+    exits when it receives SIGTSTP, while a stream of short tests keeps some other unit busy spawning (such a unit
+    cannot acknowledge, so the dispatcher waits). When the race is won the retry delay runs through the stop.
+    Returns the number of runs in which it was observed."""
+    delay_ms, stop_s = 1500, 1.8
+    cfg = ('[profile.default]\nslow-timeout = { period = "30s" }\nleak-timeout = "100ms"\nfail-fast = false\n'
+           'retries = 0\n[[profile.default.overrides]]\nfilter = "test(subject)"\n'
+           f'retries = {{ backoff = "fixed", count = 1, delay = "{delay_ms}ms" }}\n')
+    scen = {"bins": {"alpha::t1": {"tests": {"subject": {"attempts": [
+                {"sleep": 30, "exit": 1, "tstp": "exit"}, {"sleep": 0.1, "exit": 0}]}}},
+            "beta::t1": {"tests": {f"f{i:03d}": {"attempts": [{"sleep": 0.0, "exit": 0}]} for i in range(fillers)}}}}
+    listed = [f for f in vlib.known_findings().get("findings", []) if f.get("id") == "F16"]
+    out, idx, lock = [], list(range(trials)), threading.Lock()
+
+    def one(i):
+        t_start = [None]
+
+        def trig(delay):
+            def f(ctx):
+                if t_start[0] is None:
+                    for r in e2e.read_jsonl(ctx["log"]):
+                        if r.get("ev") == "start" and r.get("test") == "subject":
+                            t_start[0] = r["t"]
+                            break
+                return t_start[0] is not None and time.monotonic() >= t_start[0] + delay
+            return f
+        d1 = 0.15 + 0.013 * (i % 17)
+        res = rig.run(scen, cfg, args=["--no-fail-fast", "--test-threads", "6"],
+                      signals=[(trig(d1), signal.SIGTSTP), (trig(d1 + stop_s), signal.SIGCONT)], timeout=60)
+        tap = res["tap"]
+        sub = lambda e: e.get("test", [None, None])[1] == "subject"
+        fail = [e for e in tap if e.get("kind") == "TestAttemptFailedWillRetry" and sub(e)]
+        retry = [e for e in tap if e.get("kind") == "TestRetryStarted" and sub(e)]
+        rec = dict(trial=i, rc=res["rc"], panic=("panicked" in res["stderr"]) or res["rc"] == 101,
+                   timed_out=res["timed_out"], stderr_tail=res["stderr"][-400:] if res["rc"] == 101 else "")
+        if fail and retry and len(res["sent"]) == 2:
+            t_stop, t_cont = res["sent"][0][0], res["sent"][1][0]
+            stopped = [(t_stop, t_cont)]
+            gap = unstopped(retry[0]["mono"], stopped) - unstopped(fail[0]["mono"], stopped)
+            rec.update(failed_reported_after_cont_ms=(fail[0]["mono"] - t_cont) * 1000,
+                       retry_after_cont_ms=(retry[0]["mono"] - t_cont) * 1000, unstopped_gap_ms=gap * 1000,
+                       delay_ms=delay_ms, stopped_ms=(t_cont - t_stop) * 1000)
+            rec["hit"] = (retry[0]["mono"] - t_cont) * 1000 < delay_ms - 100
+        rig.cleanup(res)
+        with lock:
+            out.append(rec)
+
+    def worker():
+        while True:
+            with lock:
+                if not idx:
+                    return
+                i = idx.pop(0)
+            one(i)
+
+    ths = [threading.Thread(target=worker) for _ in range(par)]
+    for t in ths:
+        t.start()
+    for t in ths:
+        t.join()
+    hits = [r for r in out if r.get("hit")]
+    chk.count("handover_race_trials", len(out))
+    chk.count("handover_race_observed", len(hits))
+    broken = [r for r in out if r["panic"] or r["timed_out"]]
+    if broken:
+        chk.violation("counterexample", "oracle:" + chk.prop + ":handover-race",
+                      dict(clause="nextest failed internally or hung when a test exited on SIGTSTP", runs=broken[:3],
+                           scenario=scen, config=cfg))
+    elif hits:
+        if listed:
+            chk.known_finding(listed[0]["what"])
+        else:
+            chk.violation("counterexample", "oracle:" + chk.prop + ":handover-race",
+                          dict(clause=f"the retry delay of {delay_ms} ms counted the time the run was stopped: attempt 2 "
+                                      f"started {hits[0]['retry_after_cont_ms']:.0f} ms after SIGCONT",
+                               runs=hits[:3], scenario=scen, config=cfg))
+    return len(hits)
